@@ -28,6 +28,7 @@ type Engine struct {
 	panicTag map[string][]string
 	loadSecs float64
 	sortedNames []string
+	flowTypes []*types.Map
 }
 
 func (e *Engine) panicTagsFor(fn string) []string { return nil }
@@ -303,6 +304,10 @@ func (vc *FuncVC) frameCheck(st *State, sc *Scope, ct *Contract) {
 	if contains(ct.Havoc, "user") {
 		dn, _, vn, _ := mapHeaps(vc.w, userMapType)
 		whole[dn], whole[vn], whole["H_SharedStore_data"] = true, true, true
+		for _, mt := range vc.eng.flowTableTypes() {
+			fd, _, fv, _ := mapHeaps(vc.w, mt)
+			whole[fd], whole[fv] = true, true
+		}
 	}
 	func() {
 		defer func() {
@@ -578,4 +583,25 @@ func (vc *FuncVC) lemmaRun() {
 		vc.addOblig(st, "lemma", fmt.Sprintf("ensures#%d%s", c.Ord, tag), c.Tags, g)
 		st.pc = st.pc[:save]
 	}
+}
+
+// flowTableTypes: the map types of Flow.transitions (outer and inner), user-visible through Connect.
+func (e *Engine) flowTableTypes() []*types.Map {
+	if e.flowTypes != nil {
+		return e.flowTypes
+	}
+	e.flowTypes = []*types.Map{}
+	if obj := e.pkg.Types.Scope().Lookup("Flow"); obj != nil {
+		if st, ok := obj.Type().Underlying().(*types.Struct); ok {
+			for i := 0; i < st.NumFields(); i++ {
+				if mt, ok := st.Field(i).Type().Underlying().(*types.Map); ok {
+					e.flowTypes = append(e.flowTypes, mt)
+					if inner, ok := mt.Elem().Underlying().(*types.Map); ok {
+						e.flowTypes = append(e.flowTypes, inner)
+					}
+				}
+			}
+		}
+	}
+	return e.flowTypes
 }
